@@ -514,6 +514,10 @@ def contains(it, container, item):
     from .interp import DictView
     if isinstance(c, DictView):
         return item in c.obj.attrs
+    # enum.Flag containment: `member in flags` <=> every bit of member is set in flags
+    ci, ii = unbox(item), c
+    if isinstance(ii, EnumMember) and isinstance(ci, EnumMember) and isinstance(ii.value, int) and isinstance(ci.value, int) and ii.cls is ci.cls:
+        return (ci.value & ii.value) == ci.value
     raise Unsupported(f'`in` on {container!r}')
 
 
